@@ -221,6 +221,71 @@ def _prove(solver: z3.Solver, pcs: typing.Sequence[typing.Any], goal: typing.Any
     return None
 
 
+def _fp_vars(term: typing.Any, cache: dict) -> frozenset:
+    """names of the floating-point constants a term mentions"""
+    key = term.get_id()
+    if key in cache:
+        return cache[key]
+    if z3.is_const(term):
+        r = frozenset([term.decl().name()]) if (z3.is_fp(term) and term.decl().kind() == z3.Z3_OP_UNINTERPRETED) else frozenset()
+    else:
+        r = frozenset().union(*[_fp_vars(c, cache) for c in term.children()]) if term.num_args() else frozenset()
+    cache[key] = r
+    return r
+
+
+def _prove_split(solver: z3.Solver, pcs: typing.Sequence[typing.Any], conj: typing.Sequence[typing.Any], log: QueryLog) -> typing.Optional[z3.ModelRef]:
+    """prove pcs => AND(conj), one query per group of conjuncts that mention the same floating-point inputs (a conjunction over several
+    independent float conversions is far harder for the solver than its parts); returns a model of the first refuted group"""
+    cache: dict = {}
+    groups: typing.Dict[frozenset, list] = {}
+    for c in conj:
+        if isinstance(c, builtins.bool):
+            if not c:
+                return _prove(solver, pcs, False, log)
+            continue
+        groups.setdefault(_fp_vars(c, cache), []).append(c)
+    if not groups:
+        return _prove(solver, pcs, True, log)
+    for fpv, cs in sorted(groups.items(), key=lambda kv: len(kv[0])):
+        goal = z3.And(*cs) if len(cs) > 1 else cs[0]
+        if fpv:
+            # slice: only the premises connected to the goal through shared inputs (the others are satisfiable on their own and share no
+            # variable, so the verdict is the same); identical sliced queries recur on paths that differ in other fields: cached
+            sl = sym.slice_pc(pcs, goal)
+            key = (frozenset(c.get_id() for c in sl), goal.get_id())
+            sym.term_vars(goal)          # keeps the goal term alive: AST ids are only unique among live terms
+            if key in _SLICE_CACHE:
+                log.unsat += 1
+                log.notes_cached = getattr(log, "notes_cached", 0) + 1
+                continue
+            before = len(log.unknown)
+            m = _prove(solver, sl, goal, log)
+            if m is None and len(log.unknown) == before:
+                _SLICE_CACHE.add(key)
+                continue
+            del log.unknown[before:]
+        m = _prove(solver, pcs, goal, log)
+        if m is not None:
+            return m
+    return None
+
+
+_SLICE_CACHE: set = set()
+
+
+def _all_vars(term: typing.Any, cache: dict) -> frozenset:
+    key = term.get_id()
+    if key in cache:
+        return cache[key]
+    if z3.is_const(term):
+        r = frozenset([term.decl().name()]) if term.decl().kind() == z3.Z3_OP_UNINTERPRETED else frozenset()
+    else:
+        r = frozenset().union(*[_all_vars(c, cache) for c in term.children()]) if term.num_args() else frozenset()
+    cache[key] = r
+    return r
+
+
 def _model_values(m: z3.ModelRef, plan: Plan) -> dict:
     out = {}
     for name, v in plan.vars:
@@ -279,8 +344,7 @@ def ser_queries(unit: PyUnit, t: pydsdl.CompositeType, budget_s: float = 240.0) 
                 log.cex.append(dict(fn="ser", kind="size", what=f"serialized length {len(cells)} bytes / {bitlen} bits, specification says {nbytes} / {spec.pos}",
                                     shape=repr(shape), values=_model_values(m, plan) if m is not None else {}))
                 continue
-            goal = D.stream_matches(spec, [npshim._bv(c, 8) for c in cells])
-            m = _prove(solver, p.pc, goal, log)
+            m = _prove_split(solver, p.pc, D.stream_matches(spec, [npshim._bv(c, 8) for c in cells], as_list=True), log)
             if m is not None:
                 log.cex.append(dict(fn="ser", kind="spec-mismatch", what="serializer output differs from the specification", shape=repr(shape),
                                     values=_model_values(m, plan)))
@@ -660,8 +724,11 @@ def _rt_match(v: typing.Any, act: typing.Any, conj: typing.List[typing.Any]) -> 
                 conj.append(act.z == d)
             else:
                 srt = {16: z3.Float16(), 32: z3.Float32()}[t.bit_length]
-                y = z3.fpFPToFP(z3.RNE(), act.z, srt)
-                conj.append(z3.And(z3.fpFPToFP(z3.RNE(), y, z3.Float64()) == act.z, D.pyfloat_wire_ok(t, d, z3.fpToIEEEBV(y))))
+                if npshim._is_widened_from(act.z, srt):          # decoded value is syntactically the exact widening of a value of the wire format
+                    conj.append(D.pyfloat_wire_ok(t, d, z3.fpToIEEEBV(act.z.arg(1))))
+                else:
+                    y = z3.fpFPToFP(z3.RNE(), act.z, srt)
+                    conj.append(z3.And(z3.fpFPToFP(z3.RNE(), y, z3.Float64()) == act.z, D.pyfloat_wire_ok(t, d, z3.fpToIEEEBV(y))))
             return True
         if isinstance(act, (builtins.bool, SymBool)) or not isinstance(act, (builtins.int, SymInt)):
             return False
@@ -749,13 +816,11 @@ def roundtrip_queries(unit: PyUnit, t: pydsdl.CompositeType, budget_s: float = 2
             b1, obj2, b2 = p.value
             conj: typing.List[typing.Any] = []
             ok = _rt_match(val, obj2, conj)
-            goal_v: typing.Any = z3.And(*conj) if (ok and conj) else ok
-            m = _prove(solver, p.pc, goal_v, log)
+            m = _prove_split(solver, p.pc, conj if ok else [False], log)
             if m is not None:
                 log.cex.append(dict(fn="rt", kind="roundtrip-value", what="deserialize(serialize(v)) differs from the cast-adjusted v", shape=repr(shape),
                                     values=_model_values(m, plan)))
-            same = len(b1) == len(b2) and (z3.And(*[npshim._bv(x, 8) == npshim._bv(y, 8) for x, y in zip(b1, b2)]) if b1 else True)
-            m = _prove(solver, p.pc, same, log)
+            m = _prove_split(solver, p.pc, [npshim._bv(x, 8) == npshim._bv(y, 8) for x, y in zip(b1, b2)] if len(b1) == len(b2) else [False], log)
             if m is not None:
                 log.cex.append(dict(fn="rt", kind="roundtrip-bytes", what="serializing the decoded value again yields different bytes", shape=repr(shape),
                                     values=_model_values(m, plan)))
